@@ -22,6 +22,7 @@ type c10Case struct {
 	Cancels  []int     `json:"cancels,omitempty"` // waiters (by index) whose context is cancelled at the scenario instant (actor ids H+W, H+W+1, ...)
 	Par      bool      `json:"par,omitempty"`     // real-parallel mode: spin at the schedule points instead of yielding
 	Ghosts   int       `json:"ghosts,omitempty"`  // blocking/deadline kinds: earlier callers that blocked and gave up (cancelled) before the scenario
+	Relays   []int     `json:"relays,omitempty"`  // waiters (by index) that complete their token by themselves the moment they are granted (a second release, made by a winner)
 }
 
 var c10Kinds = []StackCfg{
@@ -44,6 +45,9 @@ func genC10(t *rapid.T) c10Case {
 	c.Waiters = rapid.IntRange(1, 3).Draw(t, "waiters")
 	if rapid.IntRange(0, 2).Draw(t, "withCancel") == 0 {
 		c.Cancels = rapid.SliceOfNDistinct(rapid.IntRange(0, c.Waiters-1), 1, c.Waiters, func(i int) int { return i }).Draw(t, "cancels")
+	}
+	if c.Waiters >= 2 && rapid.IntRange(0, 2).Draw(t, "withRelay") == 0 {
+		c.Relays = rapid.SliceOfNDistinct(rapid.IntRange(0, c.Waiters-1), 1, c.Waiters-1, func(i int) int { return i }).Draw(t, "relays")
 	}
 	c.Order = rapid.Permutation(seq(h+c.Waiters+len(c.Cancels))).Draw(t, "order")
 	c.Yields = yieldList(rapid.SliceOfN(rapid.SampledFrom([]uint8{0, 0, 1, 1, 2, 3, 5}), 0, 24).Draw(t, "yields"))
@@ -107,6 +111,11 @@ func runC10InBubble(c c10Case) (out kit.Outcome) {
 	var waiters []*vtCaller
 	for i := 0; i < c.Waiters; i++ {
 		waiters = append(waiters, w.newCaller("a", 0, 0))
+	}
+	for j, i := range c.Relays {
+		if i < len(waiters) {
+			waiters[i].Relay, waiters[i].Outcome = true, j
+		}
 	}
 	order := c.Order
 	if len(order) != h+c.Waiters+len(c.Cancels) {
@@ -191,7 +200,7 @@ func runC10InBubble(c c10Case) (out kit.Outcome) {
 			}
 		}
 	}
-	out.Labels = []string{"kind:" + kind, fmt.Sprintf("granted:%d", granted)}
+	out.Labels = []string{"kind:" + kind, fmt.Sprintf("granted:%d", granted), fmt.Sprintf("relays:%d", len(c.Relays))}
 	if out.NonTrivial {
 		out.Labels = append(out.Labels, "completion-in-window")
 	}
@@ -226,13 +235,13 @@ func TestC10_enum_Coop(t *testing.T) {
 		kit.Check(t, kit.Prop[c10Case]{ID: "C10", Run: runC10})
 		return
 	}
-	d := kit.NewDirect[c10Case](t, "C10", "exhaustive: 7 limiter kinds x 5 actor sets x all spawn orders x yields in {0,1,3}^k (k=6; thorough k=9); non-trivial as TestC10_sampled_Coop")
+	d := kit.NewDirect[c10Case](t, "C10", "exhaustive: 7 limiter kinds x 6 actor sets (one with a waiter that releases the moment it is granted) x all spawn orders x yields in {0,1,3}^k (k=6; thorough k=9); non-trivial as TestC10_sampled_Coop")
 	k := 6
 	if kit.Thorough() {
 		k = 9
 	}
 	vals := []uint8{0, 1, 3}
-	sets := []struct{ limit, h, w int }{{1, 1, 1}, {1, 1, 2}, {2, 2, 1}, {2, 1, 2}, {2, 2, 2}}
+	sets := []struct{ limit, h, w, relay int }{{1, 1, 1, 0}, {1, 1, 2, 0}, {2, 2, 1, 0}, {2, 1, 2, 0}, {2, 2, 2, 0}, {1, 1, 2, 1}} // relay: the first waiter completes its token the moment it is granted
 	for _, base := range c10Kinds {
 		for _, s := range sets {
 			for _, order := range permutations(s.h + s.w) {
@@ -248,6 +257,9 @@ func TestC10_enum_Coop(t *testing.T) {
 						x /= len(vals)
 					}
 					c := c10Case{Stack: base, Waiters: s.w, Order: order, Yields: ys}
+					if s.relay > 0 {
+						c.Relays = []int{0}
+					}
 					if base.Kind != "queue" {
 						c.Ghosts = (code / 3) % 3
 					}
